@@ -172,6 +172,10 @@ impl Walk {
             self.fail(&["C03", "C12", "C01", "C02", "C05"], i, q, r, "the read side of the API is inconsistent with itself (size hints, row columns, value by column name, has_column)".into());
             return;
         }
+        if r.contains("STREAMAPI:") {
+            self.fail(&["C11", "C01", "C02", "C16"], i, q, r, "reading a stream in pieces, after a partial read or from a position sought to does not give the bytes that one read_to_end gives".into());
+            return;
+        }
         if !["remove_sig", "snapshot", "has_sig", "streams", "has_stream", "stream_read", "select", "@ffi_check"].contains(&t[0]) {
             self.pending_sig = None;
         }
@@ -481,7 +485,7 @@ impl Walk {
                 if r != "ok" {
                     // (a catalog the session itself edited by hand may well describe no valid database)
                     if !self.catalog_edited {
-                        self.fail(&["C01", "C20", "C08"], i, q, r, "the saved package does not reopen (the library cannot decode the file it wrote)".into());
+                        self.fail(&["C01", "C20", "C08", "C10", "C06", "C11"], i, q, r, "the saved package does not reopen (the library cannot decode the file it wrote)".into());
                     }
                     self.session_ok = false;
                 } else {
@@ -544,7 +548,7 @@ impl Walk {
             }
             "@two_full_tables" => {
                 if r.contains("panic") {
-                    self.fail(&["C20"], i, q, r, "two full tables holding one text: the library panics although the database holds a handful of distinct strings".into());
+                    self.fail(&["C20", "C09"], i, q, r, "two full tables holding one text: the library panics although the database holds a handful of distinct strings".into());
                 } else if r != "first:ok second-a:ok second-b:ok third:ok counts=65536,65536" {
                     self.fail(&["C20", "C01"], i, q, r, "two full tables holding one text must be accepted, survive a reopen, and leave room for more".into());
                 }
